@@ -260,7 +260,6 @@ def main():
     known_hits = {}
     viol = []       # public-op disagreements (impl != model)
     hookbreak = []  # hook-level disagreements
-    modelerr = []   # L1 != L0 inside the model (machinery defect)
     profdiff = 0
     canon = getattr(gmod, 'canon', None)
     for i, line in enumerate(lines):
@@ -268,19 +267,28 @@ def main():
         l1, l0 = m, None
         if ' ;; ' in m:
             l1, l0 = m.split(' ;; ', 1)
-            if l1 != l0:
-                modelerr.append((line, m))
         for name, _, _ in PROFILES:
             o = impl[name][i]
-            oc, mc = (canon(line, o), canon(line, l1)) if canon else (o, l1)
-            if oc != mc:
-                f = classify(findings, pid, line, o, l1)
+            if canon:
+                oc, c1, c0 = canon(line, o), canon(line, l1), (canon(line, l0) if l0 is not None else None)
+            else:
+                oc, c1, c0 = o, l1, l0
+            want = c0 if c0 is not None else c1     # what the property demands on this line
+            if oc != want:
+                rec = dict(line=line, impl=o, model=l1, profile=name)
+                if l0 is not None:
+                    rec['spec'] = l0
+                    rec['model_mirrors_impl'] = (oc == c1)
+                f = classify(findings, pid, line, o, l0 if l0 is not None else l1)
                 if f:
-                    known_hits.setdefault(f['id'], []).append(dict(line=line, impl=o, model=l1, profile=name))
-                elif line.startswith('hook.'):
-                    hookbreak.append(dict(line=line, impl=o, model=l1, profile=name))
+                    known_hits.setdefault(f['id'], []).append(rec)
+                elif '.hook.' in line.split()[0]:
+                    hookbreak.append(rec)
                 else:
-                    viol.append(dict(line=line, impl=o, model=l1, profile=name))
+                    viol.append(rec)
+            elif c0 is not None and oc != c1:
+                # behaviour is right here but the limb-level model no longer mirrors the code
+                hookbreak.append(dict(line=line, impl=o, model=l1, spec=l0, profile=name, kind='L1 model differs from implementation (implementation agrees with spec L0)'))
         if impl['release'][i] != impl['dbgchk'][i]:
             profdiff += 1
 
@@ -299,9 +307,6 @@ def main():
     rc = 0
     os.makedirs(os.path.join(VERIF, 'replays'), exist_ok=True)
     msgs = []
-    if modelerr:
-        print(f'ERROR model-internal disagreement L1 != L0 (machinery defect, not a violation): {modelerr[:3]}')
-        rc = 3
     if viol:
         viol.sort(key=lambda v: (len(v['line']), v['line']))
         rpath = os.path.join(VERIF, 'replays', f'{pid}-{tier}-{seed}.json')
